@@ -177,6 +177,8 @@ class Script:
         if o == 'child_dead':
             w = self.obj(op['var'])
             kind = op.get('kind')
+            if not getattr(w, '_started', True):
+                return {'ret': True}         # never run: there is no child
             if kind in ('T', 'PT'):
                 return {'ret': not w._child.is_alive()}
             dl = time.time() + op.get('within', 0)
